@@ -1322,4 +1322,1165 @@ theorem unreach6Parse_spec (next : K → Bytes → P Frame) (raw : Bytes) (hn : 
         exact .inl ⟨_, rfl, rfl, ext_specX _ _ _ hg.1 (by rw [hb]; exact drop_tiles raw 4)⟩
       · simp only [he]; exact .inr ⟨e, rfl⟩
     · exact .inl ⟨_, rfl, rfl, ext_specX _ _ _ trivial (drop_tiles raw 4)⟩
+
+/-! ### IPv6 -/
+
+/-- the extension-header loop returns or raises exactly finding K9 (never runs out of fuel, never indexes past the end);
+offsets only grow -/
+theorem extLoop_spec (raw : Bytes) : ∀ (fuel nht offset length : Nat) (acc : List (Nat × Nat × Bytes)),
+    1 ≤ fuel → raw.length + 8 ≤ offset + 8 * fuel → length ≤ raw.length →
+    (∃ r, extLoop raw fuel nht offset length acc = .ok r ∧ ∀ a b c e, r = some (a, b, c, e) → offset ≤ b) ∨
+    extLoop raw fuel nht offset length acc = .error (.known .k9) := by
+  intro fuel
+  induction fuel with
+  | zero => intro _ _ _ _ h; omega
+  | succ fuel ih =>
+    intro nht offset length acc _ hinv hlen
+    unfold extLoop
+    by_cases c59 : nht = 59
+    · rw [if_pos c59]; exact .inl ⟨_, rfl, by intro a b c e h; simp at h; omega⟩
+    rw [if_neg c59]
+    by_cases cn : nht = 0 ∨ nht = 43 ∨ nht = 60
+    · rw [if_pos cn]
+      by_cases c8 : length < 8
+      · rw [if_pos c8]; exact .inl ⟨_, rfl, by intro a b c e h; simp at h⟩
+      rw [if_neg c8]
+      by_cases co : offset + 2 > raw.length
+      · rw [if_pos co]; exact .inr rfl
+      rw [if_neg co]
+      obtain ⟨nh, h1, _⟩ := idx_ok raw offset (by omega)
+      obtain ⟨lb, h2, _⟩ := idx_ok raw (offset + 1) (by omega)
+      simp only [h1, h2]
+      by_cases ct : length - 2 < lb * 8 + 6
+      · rw [if_pos ct]; exact .inl ⟨_, rfl, by intro a b c e h; simp at h⟩
+      rw [if_neg ct]
+      rcases ih nh (offset + 2 + (lb * 8 + 6)) (length - lb) (acc ++ [(nht, nh, sl raw (offset + 2) (offset + 2 + (lb * 8 + 6)))])
+        (by omega) (by omega) (by omega) with ⟨r, hr, hm⟩ | he
+      · exact .inl ⟨r, hr, by intro a b c e h; have := hm a b c e h; omega⟩
+      · exact .inr he
+    rw [if_neg cn]
+    by_cases c44 : nht = 44
+    · rw [if_pos c44]
+      by_cases cf : length < offset + 8
+      · rw [if_pos cf]; exact .inl ⟨_, rfl, by intro a b c e h; simp at h⟩
+      rw [if_neg cf]
+      obtain ⟨nh, h1, _⟩ := idx_ok raw offset (by omega)
+      simp only [h1]
+      rcases ih nh (offset + 8) (length - 8) (acc ++ [(44, nh, sl raw (offset + 1) (offset + 8))])
+        (by omega) (by omega) (by omega) with ⟨r, hr, hm⟩ | he
+      · exact .inl ⟨r, hr, by intro a b c e h; have := hm a b c e h; omega⟩
+      · exact .inr he
+    · rw [if_neg c44]; exact .inl ⟨_, rfl, by intro a b c e h; simp at h; omega⟩
+
+theorem ipv6_shape (b : Bytes) (h : b.length = 8) :
+    ∃ a1 a2 a3 a4, unpackE ipv6L b = .ok [.num a1, .num a2, .num a3, .num a4] := by
+  obtain ⟨vs, hu, _, hf⟩ := unpackE_total ipv6L b (by rw [h]; rfl)
+  simp only [ipv6L, fits_uint_iff, fits_nil_iff] at hf
+  obtain ⟨a1, _, rfl, _, a2, _, rfl, _, a3, _, rfl, _, a4, _, rfl, _, rfl⟩ := hf
+  exact ⟨a1, a2, a3, a4, hu⟩
+
+theorem ipv6Parse_spec (next : K → Bytes → P Frame) (raw : Bytes) (hn : NextSpec next raw.length) :
+    Out SpecX raw (ipv6Parse next raw) := by
+  unfold ipv6Parse
+  split
+  · exact .inl ⟨_, rfl, rfl, specX_leaf _ rfl⟩
+  · rename_i hlen
+    obtain ⟨vtcfl, plen, nh0, hop, hu⟩ := ipv6_shape (raw.take 8) (take_len raw 8 (by omega))
+    simp only [hu]
+    split
+    · exact .inl ⟨_, rfl, rfl, specX_leaf _ rfl⟩
+    · have hl0 : (if plen > raw.length then raw.length else plen) ≤ raw.length := by split <;> omega
+      rcases extLoop_spec raw (raw.length + 1) nh0 40 (if plen > raw.length then raw.length else plen) [] (by omega) (by omega) hl0
+        with ⟨r, hr, hm⟩ | he
+      · simp only [hr]
+        cases r with
+        | none => exact .inl ⟨_, rfl, rfl, specX_leaf _ rfl⟩
+        | some q =>
+          obtain ⟨nht, offset, length, exts⟩ := q
+          have hoff : 40 ≤ offset := hm nht offset length exts rfl
+          dsimp only
+          have hbody : (sl raw offset (offset + length)).length + 4 ≤ raw.length := by
+            have := sl_length_sub raw offset (offset + length); omega
+          have key : Out (fun f => f.Tiles) (sl raw offset (offset + length)) (
+              (if nht = 17 then next .udp (sl raw offset (offset + length))
+               else if nht = 6 then next .tcp (sl raw offset (offset + length))
+               else if nht = 58 then next (.icmp6 (sl raw 8 24) (sl raw 24 40)) (sl raw offset (offset + length))
+               else if nht = 59 then pure .nil
+               else pure (.raw (sl raw offset (offset + length))) : P Frame)) ∨
+              (nht = 59 ∧ nht ≠ 17 ∧ nht ≠ 6 ∧ nht ≠ 58) := by
+            by_cases c17 : nht = 17
+            · rw [if_pos c17]
+              rcases hn .udp _ hbody with ⟨f, h1, h2, h3⟩ | ⟨s, hs⟩
+              · exact .inl (.inl ⟨f, h1, h2, goodIn_tiles f _ h3⟩)
+              · exact .inl (.inr ⟨s, hs⟩)
+            rw [if_neg c17]
+            by_cases c6 : nht = 6
+            · rw [if_pos c6]
+              rcases hn .tcp _ hbody with ⟨f, h1, h2, h3⟩ | ⟨s, hs⟩
+              · exact .inl (.inl ⟨f, h1, h2, goodIn_tiles f _ h3⟩)
+              · exact .inl (.inr ⟨s, hs⟩)
+            rw [if_neg c6]
+            by_cases c58 : nht = 58
+            · rw [if_pos c58]
+              rcases hn (.icmp6 _ _) _ hbody with ⟨f, h1, h2, h3⟩ | ⟨s, hs⟩
+              · exact .inl (.inl ⟨f, h1, h2, h3.1⟩)
+              · exact .inl (.inr ⟨s, hs⟩)
+            rw [if_neg c58]
+            by_cases c59 : nht = 59
+            · exact .inr ⟨c59, c17, c6, c58⟩
+            · rw [if_neg c59]; exact .inl (.inl ⟨_, rfl, rfl, trivial⟩)
+          rcases key with (⟨f, hf, hb, ht⟩ | ⟨e, he⟩) | ⟨c59, c17, c6, c58⟩
+          · simp only [hf]
+            refine .inl ⟨_, rfl, rfl, ?_⟩
+            by_cases hu' : isUnparsed f = true
+            · rw [if_pos hu']; exact ext_specX _ _ _ trivial (slice_tiles raw _ _)
+            · rw [if_neg hu']; exact ext_specX _ _ _ ht (by rw [hb]; exact slice_tiles raw _ _)
+          · simp only [he]; exact .inr ⟨e, rfl⟩
+          · simp only [if_neg c17, if_neg c6, if_neg c58, if_pos c59]
+            exact .inl ⟨_, rfl, rfl, ext_specX _ _ _ trivial (nil_tiles raw)⟩
+      · simp only [he]; exact .inr ⟨_, rfl⟩
+
+/-! ### ICMPv6 / NDP -/
+
+/-- `Except` result that is a value or a registered finding -/
+def OkOrKnown {α : Type} (r : P α) : Prop := (∃ v, r = .ok v) ∨ (∃ s, r = .error (.known s))
+
+theorem ndOpt_spec (raw : Bytes) (offset : Nat) (h : offset + 2 < raw.length) :
+    (∃ r, ndOpt raw offset = .ok r ∧ ∀ o' opt, r = some (o', opt) → offset + 8 ≤ o') ∨ (∃ s, ndOpt raw offset = .error (.known s)) := by
+  unfold ndOpt
+  obtain ⟨t, h1, _⟩ := idx_ok raw offset (by omega)
+  obtain ⟨l, h2, _⟩ := idx_ok raw (offset + 1) (by omega)
+  simp only [h1, h2]
+  by_cases l0 : l = 0
+  · rw [if_pos l0]; exact .inr ⟨_, rfl⟩
+  rw [if_neg l0]
+  try dsimp only
+  by_cases ct : raw.length - (offset + 2) < l * 8 - 2
+  · rw [if_pos ct]; exact .inl ⟨_, rfl, by intro o' opt h; simp at h⟩
+  rw [if_neg ct]
+  have adv : offset + 8 ≤ offset + 2 + (l * 8 - 2) := by omega
+  repeat' split
+  all_goals first
+    | exact .inr ⟨_, rfl⟩
+    | exact .inl ⟨_, rfl, by intro o' opt h; simp at h; omega⟩
+
+theorem ndOpts_spec (raw : Bytes) : ∀ (fuel offset : Nat) (acc : List NdOpt), 1 ≤ fuel → raw.length + 8 ≤ offset + 8 * fuel →
+    OkOrKnown (ndOpts raw fuel offset acc) := by
+  intro fuel
+  induction fuel with
+  | zero => intro _ _ h; omega
+  | succ fuel ih =>
+    intro offset acc _ hinv
+    unfold ndOpts
+    by_cases c : offset + 2 < raw.length
+    · rw [if_pos c]
+      by_cases c8 : (raw.length - offset) % 8 ≠ 0
+      · rw [if_pos c8]; exact .inr ⟨_, rfl⟩
+      rw [if_neg c8]
+      rcases ndOpt_spec raw offset c with ⟨r, hr, hadv⟩ | ⟨s, hs⟩
+      · simp only [hr]
+        cases r with
+        | none => exact .inl ⟨_, rfl⟩
+        | some q =>
+          obtain ⟨o', opt⟩ := q
+          have := hadv o' opt rfl
+          exact ih o' (acc ++ [opt]) (by omega) (by omega)
+      · simp only [hs]; exact .inr ⟨s, rfl⟩
+    · rw [if_neg c]; exact .inl ⟨_, rfl⟩
+
+theorem ndOptsOf_spec (raw : Bytes) (offset : Nat) (h : 8 ≤ offset) (hr : 1 ≤ raw.length) : OkOrKnown (ndOptsOf raw offset) := by
+  unfold ndOptsOf
+  rcases ndOpts_spec raw raw.length offset [] hr (by omega) with ⟨r, hr⟩ | ⟨s, hs⟩
+  · simp only [hr]; cases r <;> exact .inl ⟨_, rfl⟩
+  · simp only [hs]; exact .inr ⟨s, rfl⟩
+
+/-- the message classes: an object for the bytes behind the 4-byte ICMPv6 header whose sub-chain is tiled, or a registered finding -/
+theorem icmp6Body_spec (next : K → Bytes → P Frame) (type : Nat) (raw : Bytes) (hn : NextSpec next raw.length) (h4 : 4 ≤ raw.length) :
+    Out (fun f => f.Tiles) (raw.drop 4) (icmp6Body next type raw) := by
+  unfold icmp6Body
+  dsimp only
+  have hl : (raw.drop 4).length + 4 ≤ raw.length := by simp [List.length_drop]; omega
+  have d8 : raw.drop 8 = (raw.drop 4).drop 4 := by rw [List.drop_drop]
+  have t8 : ∃ hd cut, raw.drop 4 = hd ++ ((Frame.raw (raw.drop 8)).bytes ++ cut) := by
+    show ∃ hd cut, raw.drop 4 = hd ++ (raw.drop 8 ++ cut)
+    rw [d8]; exact drop_tiles (raw.drop 4) 4
+  have nd : ∀ (x : Ext), Out (fun f => f.Tiles) (raw.drop 4) (.ok (.ext x (raw.drop 4) .nil)) :=
+    fun x => .inl ⟨_, rfl, rfl, ⟨nil_tiles _, trivial⟩⟩
+  have opts : ∀ (o : Nat) (g : List NdOpt → Ext), 8 ≤ o →
+      Out (fun f => f.Tiles) (raw.drop 4) (match ndOptsOf raw o with
+        | .ok os => pure (.ext (g os) (raw.drop 4) .nil)
+        | .error e => .error e) := by
+    intro o g ho
+    rcases ndOptsOf_spec raw o ho (by omega) with ⟨os, hos⟩ | ⟨s, hs⟩
+    · simp only [hos]; exact nd _
+    · simp only [hs]; exact .inr ⟨s, rfl⟩
+  by_cases c1 : type = 128 ∨ type = 129
+  · rw [if_pos c1]
+    rcases hn .echo6 _ hl with ⟨f, h1, h2, h3⟩ | ⟨s, hs⟩
+    · exact .inl ⟨f, h1, h2, h3.1⟩
+    · exact .inr ⟨s, hs⟩
+  rw [if_neg c1]
+  by_cases c2 : type = 1
+  · rw [if_pos c2]
+    rcases hn .unreach6 _ hl with ⟨f, h1, h2, h3⟩ | ⟨s, hs⟩
+    · exact .inl ⟨f, h1, h2, h3.1⟩
+    · exact .inr ⟨s, hs⟩
+  rw [if_neg c2]
+  by_cases c3 : type = 3
+  · rw [if_pos c3]; exact .inl ⟨_, rfl, rfl, ⟨t8, trivial⟩⟩
+  rw [if_neg c3]
+  by_cases c4 : type = 2
+  · rw [if_pos c4]
+    split
+    · exact .inr ⟨_, rfl⟩
+    · exact .inl ⟨_, rfl, rfl, ⟨t8, trivial⟩⟩
+  rw [if_neg c4]
+  by_cases c5 : type = 133
+  · rw [if_pos c5]; exact opts 8 _ (by omega)
+  rw [if_neg c5]
+  by_cases c6 : type = 134
+  · rw [if_pos c6]
+    split
+    · exact .inr ⟨_, rfl⟩
+    · exact opts 16 _ (by omega)
+  rw [if_neg c6]
+  by_cases c7 : type = 135
+  · rw [if_pos c7]
+    split
+    · exact .inr ⟨_, rfl⟩
+    · exact opts 24 _ (by omega)
+  rw [if_neg c7]
+  by_cases c8 : type = 136
+  · rw [if_pos c8]
+    cases hi : idx raw 4 with
+    | error e => exact .inr ⟨_, rfl⟩
+    | ok flags =>
+      dsimp only
+      split
+      · exact .inr ⟨_, rfl⟩
+      · exact opts 24 _ (by omega)
+  rw [if_neg c8]
+  exact .inl ⟨_, rfl, rfl, trivial⟩
+
+theorem icmp6Parse_spec (src dst : Bytes) (next : K → Bytes → P Frame) (raw : Bytes) (hn : NextSpec next raw.length) :
+    Out SpecX raw (icmp6Parse src dst next raw) := by
+  unfold icmp6Parse
+  split
+  · exact .inl ⟨_, rfl, rfl, specX_leaf _ rfl⟩
+  · rename_i hlen
+    obtain ⟨t, c, s, hu, _⟩ := icmp_shape (raw.take 4) (take_len raw 4 (by omega))
+    simp only [hu]
+    split
+    · exact .inl ⟨_, rfl, rfl, specX_leaf _ rfl⟩
+    · rcases icmp6Body_spec next t raw hn (by omega) with ⟨f, hf, hb, ht⟩ | ⟨e, he⟩
+      · simp only [hf]
+        exact .inl ⟨_, rfl, rfl, ext_specX _ _ _ ht (by rw [hb]; exact drop_tiles raw 4)⟩
+      · simp only [he]; exact .inr ⟨e, rfl⟩
+
+
+/-! ### GRE -/
+
+theorem greField_spec (raw : Bytes) (o n : Nat) : OkOrKnown (greField raw o n) := by
+  unfold greField
+  split
+  · exact .inr ⟨_, rfl⟩
+  · exact .inl ⟨_, rfl⟩
+
+theorem greRouting_spec (raw : Bytes) : ∀ (fuel o : Nat) (acc : List (Nat × Nat × Nat × Bytes)), 1 ≤ fuel →
+    raw.length + 4 ≤ o + 4 * fuel →
+    (∃ r, greRouting raw fuel o acc = .ok r ∧ o ≤ r.1) ∨ (∃ s, greRouting raw fuel o acc = .error (.known s)) := by
+  intro fuel
+  induction fuel with
+  | zero => intro _ _ h; omega
+  | succ fuel ih =>
+    intro o acc _ hinv
+    unfold greRouting
+    by_cases c : (sl raw o (o + 4)).length ≠ 4
+    · rw [if_pos c]; exact .inr ⟨_, rfl⟩
+    rw [if_neg c]
+    dsimp only
+    have hle : o + 4 ≤ raw.length := by
+      have := sl_length_sub raw o (o + 4)
+      have h4 : (sl raw o (o + 4)).length = 4 := by omega
+      omega
+    split
+    · exact .inl ⟨_, rfl, by simp⟩
+    · rcases ih (o + 4 + beDec (sl raw (o + 3) (o + 4))) _ (by omega) (by omega) with ⟨r, hr, hm⟩ | ⟨s, hs⟩
+      · exact .inl ⟨r, hr, by omega⟩
+      · exact .inr ⟨s, hs⟩
+
+theorem greOpt_spec (raw : Bytes) (p : Bool) (o : Nat) :
+    (∃ r, greOpt raw p o = .ok r ∧ o ≤ r.1) ∨ (∃ s, greOpt raw p o = .error (.known s)) := by
+  unfold greOpt
+  split
+  · rcases greField_spec raw o 4 with ⟨v, hv⟩ | ⟨s, hs⟩
+    · simp only [hv]; exact .inl ⟨_, rfl, by simp⟩
+    · simp only [hs]; exact .inr ⟨s, rfl⟩
+  · exact .inl ⟨_, rfl, by simp⟩
+
+theorem greCsum_spec (raw : Bytes) (p : Bool) :
+    (∃ r, greCsum raw p = .ok r ∧ 4 ≤ r.1) ∨ (∃ s, greCsum raw p = .error (.known s)) := by
+  unfold greCsum
+  split
+  · rcases greField_spec raw 4 2 with ⟨v, hv⟩ | ⟨s, hs⟩
+    · simp only [hv]
+      rcases greField_spec raw 6 2 with ⟨w, hw⟩ | ⟨s, hs⟩
+      · simp only [hw]; exact .inl ⟨_, rfl, by simp⟩
+      · simp only [hs]; exact .inr ⟨s, rfl⟩
+    · simp only [hs]; exact .inr ⟨s, rfl⟩
+  · exact .inl ⟨_, rfl, by simp⟩
+
+theorem greRoute_spec (raw : Bytes) (p : Bool) (o : Nat) (h1 : 1 ≤ raw.length) (ho : 4 ≤ o) :
+    (∃ r, greRoute raw p o = .ok r ∧ o ≤ r.1) ∨ (∃ s, greRoute raw p o = .error (.known s)) := by
+  unfold greRoute
+  split
+  · rcases greRouting_spec raw raw.length o [] h1 (by omega) with ⟨r, hr, hm⟩ | ⟨s, hs⟩
+    · obtain ⟨o', rs⟩ := r
+      simp only [hr]; exact .inl ⟨_, rfl, hm⟩
+    · simp only [hs]; exact .inr ⟨s, rfl⟩
+  · exact .inl ⟨_, rfl, by simp⟩
+
+theorem greTail_spec (next : K → Bytes → P Frame) (raw : Bytes) (h : Gre) (o : Nat) (hn : NextSpec next raw.length) (ho : 4 ≤ o)
+    (h4 : 4 ≤ raw.length) : Out SpecX raw (greTail next raw h o) := by
+  unfold greTail
+  have hl : (raw.drop o).length + 4 ≤ raw.length := by simp [List.length_drop]; omega
+  by_cases c1 : h.type = 0x0800
+  · rw [if_pos c1]
+    rcases hn .ipv4 _ hl with ⟨f, h1, h2, h3⟩ | ⟨s, hs⟩
+    · simp only [h1]; exact .inl ⟨_, rfl, rfl, ext_specX _ _ _ (good_tiles f h3.2) (by rw [h2]; exact drop_tiles raw o)⟩
+    · simp only [hs]; exact .inr ⟨s, rfl⟩
+  rw [if_neg c1]
+  by_cases c2 : h.type = 0x6558
+  · rw [if_pos c2]
+    rcases hn .eth _ hl with ⟨f, h1, h2, h3⟩ | ⟨s, hs⟩
+    · simp only [h1]; exact .inl ⟨_, rfl, rfl, ext_specX _ _ _ (good_tiles f h3) (by rw [h2]; exact drop_tiles raw o)⟩
+    · simp only [hs]; exact .inr ⟨s, rfl⟩
+  rw [if_neg c2]
+  exact .inl ⟨_, rfl, rfl, ext_specX _ _ _ trivial (drop_tiles raw o)⟩
+
+theorem greParse_spec (next : K → Bytes → P Frame) (raw : Bytes) (hn : NextSpec next raw.length) :
+    Out SpecX raw (greParse next raw) := by
+  unfold greParse
+  split
+  · exact .inl ⟨_, rfl, rfl, specX_leaf _ rfl⟩
+  · rename_i hlen
+    obtain ⟨flags, type, hu, _⟩ := nums2_shape [.uint 2, .uint 2] 2 2 rfl (raw.take 4) (take_len raw 4 (by omega))
+    simp only [hu]
+    rcases greCsum_spec raw (decide (flags / 32768 % 2 = 1) || decide (flags / 16384 % 2 = 1)) with ⟨r1, hr1, m1⟩ | ⟨s, hs⟩
+    · obtain ⟨o1, csum, ro⟩ := r1
+      simp only [hr1]
+      rcases greOpt_spec raw (decide (flags / 8192 % 2 = 1)) o1 with ⟨r2, hr2, m2⟩ | ⟨s, hs⟩
+      · obtain ⟨o2, key⟩ := r2
+        simp only [hr2]
+        rcases greOpt_spec raw (decide (flags / 4096 % 2 = 1)) o2 with ⟨r3, hr3, m3⟩ | ⟨s, hs⟩
+        · obtain ⟨o3, seq⟩ := r3
+          simp only [hr3]
+          rcases greRoute_spec raw (decide (flags / 16384 % 2 = 1)) o3 (by omega) (by simp at m1 m2 m3; omega) with ⟨r4, hr4, m4⟩ | ⟨s, hs⟩
+          · obtain ⟨o, routing⟩ := r4
+            simp only [hr4]
+            exact greTail_spec next raw _ o hn (by simp at m1 m2 m3 m4; omega) (by omega)
+          · simp only [hs]; exact .inr ⟨s, rfl⟩
+        · simp only [hs]; exact .inr ⟨s, rfl⟩
+      · simp only [hs]; exact .inr ⟨s, rfl⟩
+    · simp only [hs]; exact .inr ⟨s, rfl⟩
+
+/-! ### IGMP -/
+
+theorem igmpSrcs_spec (b : Bytes) : ∀ (n o : Nat), OkOrKnown (igmpSrcs b n o) := by
+  intro n
+  induction n with
+  | zero => intro o; exact .inl ⟨_, rfl⟩
+  | succ n ih =>
+    intro o
+    unfold igmpSrcs
+    split
+    · exact .inr ⟨_, rfl⟩
+    · rcases ih (o + 4) with ⟨v, hv⟩ | ⟨s, hs⟩
+      · simp only [hv]; exact .inl ⟨_, rfl⟩
+      · simp only [hs]; exact .inr ⟨s, rfl⟩
+
+theorem groupRec_spec (b : Bytes) : OkOrKnown (groupRec b) := by
+  unfold groupRec
+  split
+  · exact .inr ⟨_, rfl⟩
+  · dsimp only
+    rcases igmpSrcs_spec b (beDec (sl b 2 4)) 8 with ⟨v, hv⟩ | ⟨s, hs⟩
+    · simp only [hv]; exact .inl ⟨_, rfl⟩
+    · simp only [hs]; exact .inr ⟨s, rfl⟩
+
+theorem groupRecs_spec : ∀ (n : Nat) (b : Bytes) (acc : List GroupRec), OkOrKnown (groupRecs n b acc) := by
+  intro n
+  induction n with
+  | zero => intro b acc; exact .inl ⟨_, rfl⟩
+  | succ n ih =>
+    intro b acc
+    unfold groupRecs
+    rcases groupRec_spec b with ⟨v, hv⟩ | ⟨s, hs⟩
+    · obtain ⟨off, g⟩ := v
+      simp only [hv]; exact ih _ _
+    · simp only [hs]; exact .inr ⟨s, rfl⟩
+
+theorem igmp3_shape (b : Bytes) (h : b.length = 8) :
+    ∃ a1 a2 a3 a4 a5, unpackE [.uint 1, .uint 1, .uint 2, .uint 2, .uint 2] b = .ok [.num a1, .num a2, .num a3, .num a4, .num a5] := by
+  obtain ⟨vs, hu, _, hf⟩ := unpackE_total [.uint 1, .uint 1, .uint 2, .uint 2, .uint 2] b (by rw [h]; rfl)
+  simp only [fits_uint_iff, fits_nil_iff] at hf
+  obtain ⟨a1, _, rfl, _, a2, _, rfl, _, a3, _, rfl, _, a4, _, rfl, _, a5, _, rfl, _, rfl⟩ := hf
+  exact ⟨a1, a2, a3, a4, a5, hu⟩
+
+theorem igmp2_shape (b : Bytes) (h : b.length = 8) :
+    ∃ a1 a2 a3 a4, unpackE [.uint 1, .uint 1, .uint 2, .uint 4] b = .ok [.num a1, .num a2, .num a3, .num a4] := by
+  obtain ⟨vs, hu, _, hf⟩ := unpackE_total [.uint 1, .uint 1, .uint 2, .uint 4] b (by rw [h]; rfl)
+  simp only [fits_uint_iff, fits_nil_iff] at hf
+  obtain ⟨a1, _, rfl, _, a2, _, rfl, _, a3, _, rfl, _, a4, _, rfl, _, rfl⟩ := hf
+  exact ⟨a1, a2, a3, a4, hu⟩
+
+theorem igmpParse_spec (raw : Bytes) : Out SpecX raw (igmpParse raw) := by
+  unfold igmpParse
+  split
+  · exact .inl ⟨_, rfl, rfl, specX_leaf _ rfl⟩
+  · rename_i hlen
+    obtain ⟨vt, hvt, _⟩ := idx_ok raw 0 (by omega)
+    simp only [hvt]
+    split
+    · obtain ⟨a1, a2, a3, a4, a5, hu⟩ := igmp3_shape (raw.take 8) (take_len raw 8 (by omega))
+      simp only [hu]
+      rcases groupRecs_spec a5 (raw.drop 8) [] with ⟨v, hv⟩ | ⟨s, hs⟩
+      · obtain ⟨gs, extra⟩ := v
+        simp only [hv]
+        split
+        · exact .inl ⟨_, rfl, rfl, specX_leaf _ rfl⟩
+        · exact .inl ⟨_, rfl, rfl, ext_specX _ _ _ trivial (nil_tiles raw)⟩
+      · simp only [hs]; exact .inr ⟨s, rfl⟩
+    · split
+      · obtain ⟨a1, a2, a3, a4, hu⟩ := igmp2_shape (raw.take 8) (take_len raw 8 (by omega))
+        simp only [hu]
+        split
+        · exact .inl ⟨_, rfl, rfl, specX_leaf _ rfl⟩
+        · exact .inl ⟨_, rfl, rfl, ext_specX _ _ _ trivial (nil_tiles raw)⟩
+      · exact .inl ⟨_, rfl, rfl, specX_leaf _ rfl⟩
+/-- Every constructor call of the repaired code, given a nesting budget of one activation per four input bytes (every parser
+that calls a nested constructor consumed at least four bytes), returns an object for its whole input that satisfies the
+invariant — or raises at one of the registered findings K5 … K14.  Nothing else: no other exception, no model fuel. -/
+theorem parseD_spec : ∀ (d : Nat) (k : K) (raw : Bytes), raw.length / 4 + 1 ≤ d →
+    Out (Spec k) raw (parseD Cfg.repaired d k raw) := by
+  intro d
+  induction d with
+  | zero => intro k raw h; omega
+  | succ d ih =>
+    intro k raw h
+    have hn : NextSpec (parseD Cfg.repaired d) raw.length := by
+      intro k' b hb; exact ih k' b (by omega)
+    have wrap : ∀ {S : Frame → Prop} {r : P Frame}, (∃ f, r = .ok f ∧ f.bytes = raw ∧ S f) → Out S raw r := fun h => .inl h
+    cases k <;> simp only [parseD, Spec]
+    · exact ethParse_spec _ raw hn
+    · exact vlanParse_spec _ raw hn
+    · exact llcParse_spec _ raw hn
+    · exact wrap (arpParse_spec raw)
+    · exact ipv4Parse_spec _ raw hn
+    · exact udpParse_spec _ raw hn
+    · exact wrap (tcpParse_spec raw)
+    · exact icmpParse_spec _ raw hn
+    · exact wrap (echoParse_spec raw)
+    · exact unreachParse_spec _ raw hn
+    · exact timeExParse_spec _ raw hn
+    · exact wrap (lldpParse_spec raw)
+    · exact mplsParse_spec _ raw hn
+    · exact eapolParse_spec _ raw hn
+    · exact eapParse_spec raw
+    · exact vxlanParse_spec _ raw hn
+    · exact ripParse_spec raw
+    · exact dnsParse_spec raw
+    · exact ipv6Parse_spec _ raw hn
+    · exact echo6Parse_spec raw
+    · exact unreach6Parse_spec _ raw hn
+    · exact greParse_spec _ raw hn
+    · exact igmpParse_spec raw
+    · exact icmp6Parse_spec _ _ _ raw hn
+
+/-! ## printing -/
+
+theorem tlvsStr_ok (ts : List Tlv) : tlvsStr Cfg.repaired ts = .ok () := by
+  induction ts with
+  | nil => rfl
+  | cons t r ih =>
+    have : tlvStr Cfg.repaired t = .ok () := by cases t <;> simp [tlvStr, Cfg.repaired, pure, Except.pure]
+    simp [tlvsStr, this, ih, bind, Except.bind]
+
+theorem llcStr_ok (h : Llc) : llcStr Cfg.repaired h = .ok () := by
+  unfold llcStr
+  repeat' split
+  all_goals first | rfl | (rename_i hc; simp [Cfg.repaired] at hc)
+
+/-- `str()` / `dump()` of any object chain of the repaired code is defined -/
+theorem printF_ok (f : Frame) : printF Cfg.repaired f = .ok () := by
+  induction f with
+  | raw _ | nil | unparsed _ _ | foreign _ _ | ext _ _ _ _ => rfl
+  | lldp ts _ _ => exact tlvsStr_ok ts
+  | llc h p r n ih => simp [printF, llcStr_ok, ih, bind, Except.bind]
+  | eth _ _ _ ih | vlan _ _ _ ih | arp _ _ _ ih | ipv4 _ _ _ ih | udp _ _ _ ih | tcp _ _ _ ih | icmp _ _ _ ih
+  | echo _ _ _ ih | unreach _ _ _ ih | timeEx _ _ _ ih => simpa [printF] using ih
+
+/-! ## re-serialising a parse result -/
+
+theorem pk_ok (L : Layout) (vs : List Val) (hf : fits L vs) : ∃ b, pk L vs = .ok b ∧ b.length = size L := by
+  obtain ⟨bs, he, _, hl⟩ := decode_encode L vs [] hf
+  exact ⟨bs, pk_of_encode he, hl⟩
+
+theorem pack_leaf (f : Frame) (ctx : Option IPCtx) (hl : f.isLeaf = true) (hf : f.hasForeign = false) :
+    packF ctx f = .ok f.bytes := by
+  cases f <;> simp_all [Frame.isLeaf, Frame.hasForeign, packF, Frame.bytes, pure, Except.pure]
+
+theorem optsPadded_le (os : List TcpOpt) (k : Nat) (h : 20 + (optsBytes os).length ≤ k * 4) :
+    20 + (optsPadded os).length ≤ k * 4 := by
+  unfold optsPadded
+  split
+  · simp; omega
+  · exact h
+
+theorem packF_ipv4 (ctx : Option IPCtx) (h : IPv4) (r : Bytes) (n : Frame) (rest : Bytes)
+    (hrest : packF (some ⟨h.src, h.dst, h.proto⟩) n = .ok rest) (hf : h.Fits) (hn : h.hl * 4 + rest.length < 65536) :
+    packF ctx (.ipv4 h r n) = .ok (ipv4Bytes h rest.length ++ rest) := by
+  simp [packF, hrest, ipv4Hdr_ok h rest.length hf hn, bind, Except.bind, pure, Except.pure]
+
+theorem isExt_foreign (n : Frame) (h : n.isExt = true) : n.hasForeign = true := by
+  cases n <;> simp_all [Frame.isExt, Frame.hasForeign]
+
+/-- inside an IPv4 datagram: `pack()` succeeds and does not produce more bytes than were parsed -/
+theorem packIn : ∀ (f : Frame) (l4 : Bool) (ctx : Option IPCtx), GoodIn l4 f → f.bytes.length < 65536 → f.hasForeign = false →
+    (l4 = true → ∃ c, ctx = some c ∧ c.Fits) → ∃ out, packF ctx f = .ok out ∧ out.length ≤ f.bytes.length := by
+  intro f
+  induction f with
+  | raw b => intro _ _ _ _ _ _; exact ⟨b, rfl, Nat.le_refl _⟩
+  | nil => intro _ _ _ _ _ _; exact ⟨[], rfl, Nat.le_refl _⟩
+  | unparsed c r => intro _ _ _ _ _ _; exact ⟨r, rfl, Nat.le_refl _⟩
+  | foreign c r => intro _ _ _ _ hf _; simp [Frame.hasForeign] at hf
+  | ext x r n ih => intro _ _ _ _ hf _; simp [Frame.hasForeign] at hf
+  | eth _ _ _ _ | vlan _ _ _ _ | llc _ _ _ _ _ | arp _ _ _ _ | lldp _ _ _ => intro l4 _ g; simp [GoodIn] at g
+  | udp h r n ih =>
+    intro l4 ctx g hlen hfo hctx
+    obtain ⟨hl4, hfit, hleaf', hd, cut, h1, h2⟩ := g
+    obtain ⟨c, rfl, hc⟩ := hctx hl4
+    have hnf : n.hasForeign = false := by simpa [Frame.hasForeign] using hfo
+    have hleaf : n.isLeaf = true := hleaf'.elim id (fun h => by have := isExt_foreign n h.1; simp_all)
+    have hrest := pack_leaf n none hleaf hnf
+    have hrl : n.bytes.length + 8 ≤ r.length := by rw [h2]; simp; omega
+    have hlen' : r.length < 65536 := hlen
+    have := udpHdr_ok c h n.bytes hc hfit (by omega)
+    refine ⟨udpBytes c h n.bytes ++ n.bytes, ?_, ?_⟩
+    · simp [packF, hrest, this, bind, Except.bind, pure, Except.pure]
+    · show _ ≤ r.length; simp [udpBytes_length]; omega
+  | tcp h r n ih =>
+    intro l4 ctx g hlen hfo hctx
+    obtain ⟨hl4, hfit, hok, hopt, hoff, hleaf, hd, h1, h2⟩ := g
+    obtain ⟨c, rfl, hc⟩ := hctx hl4
+    have hrest := pack_leaf n none hleaf (by simpa [Frame.hasForeign] using hfo)
+    have hrl : h.off * 4 + n.bytes.length = r.length := by rw [h2]; simp; omega
+    have hlen' : r.length < 65536 := hlen
+    have hpad := optsPadded_le h.opts h.off hopt
+    have := tcpHdr_ok c h (optsPadded h.opts) n.bytes hc hfit (tcpOptsPadded_ok h.opts hok) (by omega) (by omega)
+    refine ⟨tcpBytes c h (optsPadded h.opts) n.bytes ++ n.bytes, ?_, ?_⟩
+    · simp [packF, hrest, this, bind, Except.bind, pure, Except.pure]
+    · show _ ≤ r.length; simp [tcpBytes_length]; omega
+  | icmp h r n ih =>
+    intro l4 ctx g hlen hfo hctx
+    obtain ⟨_, hfit, ⟨hd, h1, h2⟩, g'⟩ := g
+    have hrl : 4 + n.bytes.length = r.length := by rw [h2]; simp; omega
+    have hlen' : r.length < 65536 := hlen
+    obtain ⟨rest, hrest, hle⟩ := ih false none g' (by omega) (by simpa [Frame.hasForeign] using hfo) (by simp)
+    have := icmpHdr_ok h rest hfit (by omega)
+    refine ⟨icmpBytes h rest ++ rest, ?_, ?_⟩
+    · simp [packF, hrest, this, bind, Except.bind, pure, Except.pure]
+    · show _ ≤ r.length; simp [icmpBytes, icmpPre, be16]; omega
+  | echo h r n ih =>
+    intro l4 ctx g hlen hfo hctx
+    obtain ⟨hfit, hleaf, hd, h1, h2⟩ := g
+    have hrest := pack_leaf n none hleaf (by simpa [Frame.hasForeign] using hfo)
+    have hrl : 4 + n.bytes.length = r.length := by rw [h2]; simp; omega
+    refine ⟨echoBytes h ++ n.bytes, ?_, ?_⟩
+    · simp [packF, hrest, echoHdr_ok h hfit, bind, Except.bind, pure, Except.pure]
+    · show _ ≤ r.length; simp [echoBytes, be16]; omega
+  | unreach h r n ih =>
+    intro l4 ctx g hlen hfo hctx
+    obtain ⟨hfit, ⟨hd, h1, h2⟩, g'⟩ := g
+    have hrl : 4 + n.bytes.length = r.length := by rw [h2]; simp; omega
+    have hlen' : r.length < 65536 := hlen
+    obtain ⟨rest, hrest, hle⟩ := ih false none g' (by omega) (by simpa [Frame.hasForeign] using hfo) (by simp)
+    refine ⟨unreachBytes h ++ rest, ?_, ?_⟩
+    · simp [packF, hrest, unreachHdr_ok h hfit, bind, Except.bind, pure, Except.pure]
+    · show _ ≤ r.length; simp [unreachBytes, be16]; omega
+  | timeEx h r n ih =>
+    intro l4 ctx g hlen hfo hctx
+    obtain ⟨hfit, ⟨hd, h1, h2⟩, g'⟩ := g
+    have hrl : 4 + n.bytes.length = r.length := by rw [h2]; simp; omega
+    have hlen' : r.length < 65536 := hlen
+    obtain ⟨rest, hrest, hle⟩ := ih false none g' (by omega) (by simpa [Frame.hasForeign] using hfo) (by simp)
+    refine ⟨timeExBytes h ++ rest, ?_, ?_⟩
+    · simp [packF, hrest, timeExHdr_ok h hfit, bind, Except.bind, pure, Except.pure]
+    · show _ ≤ r.length; simp [timeExBytes]; omega
+  | ipv4 h r n ih =>
+    intro l4 ctx g _ hfo _
+    obtain ⟨hfit, hip, ⟨hd, cut, h1, h2, h3⟩, g'⟩ := g
+    obtain ⟨rest, hrest, hle⟩ := ih true (some ⟨h.src, h.dst, h.proto⟩) g' (by omega)
+      (by simpa [Frame.hasForeign] using hfo) (fun _ => ⟨_, rfl, ⟨hfit.src, hfit.dst, hfit.proto⟩⟩)
+    have hrl : h.hl * 4 + n.bytes.length ≤ r.length := by rw [h2]; simp; omega
+    refine ⟨_, packF_ipv4 ctx h r n rest hrest hfit (by omega), ?_⟩
+    show _ ≤ r.length; simp [ipv4Bytes_length h _ hfit]; omega
+
+theorem llcHdr_ok (h : Llc) (hf : LlcFits h) : ∃ b, llcHdr h = .ok b := by
+  obtain ⟨d, s, c, hd, hs, hc, d1, s1, c1, c2, hou⟩ := hf
+  obtain ⟨a, ha, _⟩ := pk_ok [.uint 1, .uint 1] [.num d, .num s] (by simp [fits]; exact ⟨d1, s1⟩)
+  unfold llcHdr
+  simp only [hd, hs, hc]
+  by_cases h38 : h.length = 3 ∨ h.length = 8
+  · obtain ⟨cb, hcb, _⟩ := pk_ok [.uint 1] [.num c] (by simp [fits]; exact c2 h38)
+    rcases hou with ⟨ho, _⟩ | ⟨o, ho, _, het, _⟩
+    · simp [ho, ha, hcb, h38, bind, Except.bind, pure, Except.pure]
+    · obtain ⟨t, ht, _⟩ := pk_ok [.uint 2] [.num h.ethType] (by simp [fits]; exact het)
+      simp [ho, ha, hcb, ht, h38, bind, Except.bind, pure, Except.pure]
+  · obtain ⟨cb, hcb, _⟩ := pk_ok [.uint 1, .uint 1] [.num (c % 256), .num ((c / 256) % 256)] (by simp [fits]; omega)
+    rcases hou with ⟨ho, _⟩ | ⟨o, ho, _, het, _⟩
+    · simp [ho, ha, hcb, h38, bind, Except.bind, pure, Except.pure]
+    · obtain ⟨t, ht, _⟩ := pk_ok [.uint 2] [.num h.ethType] (by simp [fits]; exact het)
+      simp [ho, ha, hcb, ht, h38, bind, Except.bind, pure, Except.pure]
+
+theorem Tlv.type_lt (t : Tlv) (h : t.Fits) : t.type < 128 := by
+  cases t <;> simp_all [Tlv.type, Tlv.Fits]
+
+theorem tlvData_ok (t : Tlv) (h : t.Fits) : ∃ d, tlvData t = .ok d := by
+  cases t with
+  | chassis st id =>
+    obtain ⟨a, ha, _⟩ := pk_ok [.uint 1] [.num st] (by simp [fits]; exact h)
+    exact ⟨a ++ id, by simp [tlvData, ha, bind, Except.bind, pure, Except.pure]⟩
+  | port st id =>
+    obtain ⟨a, ha, _⟩ := pk_ok [.uint 1] [.num st] (by simp [fits]; exact h)
+    exact ⟨a ++ id, by simp [tlvData, ha, bind, Except.bind, pure, Except.pure]⟩
+  | ttl v =>
+    obtain ⟨a, ha, _⟩ := pk_ok [.uint 2] [.num v] (by simp [fits]; exact h)
+    exact ⟨a, by simp [tlvData, ha]⟩
+  | endT => exact ⟨[], rfl⟩
+  | caps c e =>
+    obtain ⟨a, ha, _⟩ := pk_ok [.uint 2, .uint 2] [.num c, .num e] (by simp [fits]; exact h)
+    exact ⟨a, by simp [tlvData, ha]⟩
+  | mgmt ast addr ins ifn oid =>
+    obtain ⟨h1, h2, h3, h4, h5⟩ := h
+    obtain ⟨a, ha, _⟩ := pk_ok [.uint 1, .uint 1] [.num (addr.length + 1), .num ast] (by simp [fits]; exact ⟨h2, h1⟩)
+    obtain ⟨b, hb, _⟩ := pk_ok [.uint 1, .uint 4, .uint 1] [.num ins, .num ifn, .num oid.length] (by simp [fits]; exact ⟨h3, h4, h5⟩)
+    exact ⟨a ++ addr ++ b ++ oid, by simp [tlvData, ha, hb, bind, Except.bind, pure, Except.pure]⟩
+  | org oui st payload =>
+    obtain ⟨a, ha, _⟩ := pk_ok [.blob 3, .uint 1] [.raw oui, .num st] (by simp [fits]; exact h)
+    exact ⟨a ++ payload, by simp [tlvData, ha, bind, Except.bind, pure, Except.pure]⟩
+  | simple t payload => exact ⟨payload, rfl⟩
+
+theorem tlvPack_ok (t : Tlv) (h : t.Fits) : ∃ b, tlvPack t = .ok b := by
+  obtain ⟨data, hd⟩ := tlvData_ok t h
+  have h1 : data.length % 512 < 2 ^ 9 := by omega
+  have := Tlv.type_lt t h
+  obtain ⟨hb, hhb, _⟩ := pk_ok [.uint 2] [.num ((t.type <<< 9) ||| (data.length % 512))]
+    (by simp [fits]; rw [shl_or _ _ 9 h1]; omega)
+  exact ⟨hb ++ data, by simp only [tlvPack, hd, hhb, bind, Except.bind, pure, Except.pure]⟩
+
+theorem tlvsPack_ok (ts : List Tlv) (h : ∀ t ∈ ts, t.Fits) : ∃ b, tlvsPack ts = .ok b := by
+  induction ts with
+  | nil => exact ⟨[], rfl⟩
+  | cons t r ih =>
+    obtain ⟨a, ha⟩ := tlvPack_ok t (h t (by simp))
+    obtain ⟨b, hb⟩ := ih (fun x hx => h x (by simp [hx]))
+    exact ⟨a ++ b, by simp [tlvsPack, ha, hb, bind, Except.bind, pure, Except.pure]⟩
+
+/-- at frame level: `pack()` of a parse result without foreign layers is defined -/
+theorem packTop : ∀ (f : Frame), Good f → f.hasForeign = false → ∃ out, packF none f = .ok out := by
+  intro f
+  induction f with
+  | raw b => intro _ _; exact ⟨b, rfl⟩
+  | nil => intro _ _; exact ⟨[], rfl⟩
+  | unparsed c r => intro _ _; exact ⟨r, rfl⟩
+  | foreign c r => intro _ hf; simp [Frame.hasForeign] at hf
+  | ext x r n ih => intro _ hf; simp [Frame.hasForeign] at hf
+  | udp _ _ _ _ | tcp _ _ _ _ | icmp _ _ _ _ | echo _ _ _ _ | unreach _ _ _ _ | timeEx _ _ _ _ => intro g; simp [Good] at g
+  | eth h r n ih =>
+    intro g hfo
+    obtain ⟨hfit, _, g'⟩ := g
+    obtain ⟨rest, hrest⟩ := ih g' (by simpa [Frame.hasForeign] using hfo)
+    exact ⟨ethBytes h ++ rest, by simp [packF, hrest, ethHdr_ok h hfit, bind, Except.bind, pure, Except.pure]⟩
+  | vlan h r n ih =>
+    intro g hfo
+    obtain ⟨hfit, _, g'⟩ := g
+    obtain ⟨rest, hrest⟩ := ih g' (by simpa [Frame.hasForeign] using hfo)
+    exact ⟨vlanBytes h ++ rest, by simp [packF, hrest, vlanHdr_ok h hfit, bind, Except.bind, pure, Except.pure]⟩
+  | llc h p r n ih =>
+    intro g hfo
+    obtain ⟨g1, g2, g'⟩ := g
+    cases p with
+    | false => exact ⟨r, by simp [packF, pure, Except.pure]⟩
+    | true =>
+      obtain ⟨rest, hrest⟩ := ih g' (by simpa [Frame.hasForeign] using hfo)
+      obtain ⟨hb, hhb⟩ := llcHdr_ok h (g1 rfl).1
+      exact ⟨hb ++ rest, by simp [packF, hrest, hhb, bind, Except.bind, pure, Except.pure]⟩
+  | arp h r n ih =>
+    intro g hfo
+    obtain ⟨hfit, hleaf, _⟩ := g
+    have hrest := pack_leaf n none hleaf (by simpa [Frame.hasForeign] using hfo)
+    obtain ⟨bs, he⟩ := encode_some_of_fits arpL (arpVals h) (arp_fits h hfit)
+    have : arpHdr h = .ok bs := pk_of_encode he
+    exact ⟨bs ++ n.bytes, by simp [packF, hrest, this, bind, Except.bind, pure, Except.pure]⟩
+  | lldp ts p r =>
+    intro g _
+    cases p with
+    | false => exact ⟨r, by simp [packF, pure, Except.pure]⟩
+    | true =>
+      obtain ⟨b, hb⟩ := tlvsPack_ok ts g
+      exact ⟨b, by simp [packF, hb]⟩
+  | ipv4 h r n ih =>
+    intro g hfo
+    obtain ⟨hfit, hip, ⟨hd, cut, h1, h2, h3⟩, g'⟩ := g
+    obtain ⟨rest, hrest, hle⟩ := packIn n true (some ⟨h.src, h.dst, h.proto⟩) g' (by omega)
+      (by simpa [Frame.hasForeign] using hfo) (fun _ => ⟨_, rfl, ⟨hfit.src, hfit.dst, hfit.proto⟩⟩)
+    exact ⟨_, packF_ipv4 none h r n rest hrest hfit (by omega)⟩
+
+/-! ## relation to the total parser of C14 (`Packet.parse`, Model/PacketHdr.lean)
+
+Whenever the exception-aware parser returns, the C14 parser — which turns every would-be exception into "unparsed" — returns
+the same chain (LLC / LLDP objects and foreign layers being what C14 calls `unmodelled`).  Stated for the versions of the code
+with repair C15-4 (committed), the TCP-option bound the C14 model has as well. -/
+
+/-- the nested constructor calls agree -/
+structure Rel (next : K → Bytes → P Frame) (nextC : Kind → Bytes → Pkt) : Prop where
+  same : ∀ k kc b g, k.toKind = some kc → next k b = .ok g → g.toPkt = nextC kc b
+  llc : ∀ b g, next .llc b = .ok g → g.toPkt = .unmodelled "llc" b
+  lldp : ∀ b g, next .lldp b = .ok g → g.toPkt = .unmodelled "lldp" b
+
+theorem parseNext_ref (cfg : Cfg) (hx : cfg.ext = false) (next : K → Bytes → P Frame) (nextC : Kind → Bytes → Pkt) (hr : Rel next nextC) (t : Nat) (rest : Bytes)
+    (allow : Bool) (g : Frame) (h : parseNext cfg next t rest allow = .ok g) : g.toPkt = Packet.parseNext nextC t rest allow := by
+  unfold parseNext at h
+  unfold Packet.parseNext
+  by_cases c1 : t = 0x8100
+  · rw [if_pos c1] at h ⊢; exact hr.same _ _ _ _ rfl h
+  rw [if_neg c1] at h ⊢
+  by_cases c2 : t = 0x0806 ∨ t = 0x8035
+  · rw [if_pos c2] at h ⊢; exact hr.same _ _ _ _ rfl h
+  rw [if_neg c2] at h ⊢
+  by_cases c3 : t = 0x0800
+  · rw [if_pos c3] at h ⊢; exact hr.same _ _ _ _ rfl h
+  rw [if_neg c3] at h ⊢
+  by_cases c4 : t = 0x86dd
+  · rw [if_pos c4] at h ⊢; simp [hx, pure, Except.pure] at h; subst h; rfl
+  rw [if_neg c4] at h ⊢
+  by_cases c5 : t = 0x88cc
+  · rw [if_pos c5] at h ⊢; exact hr.lldp _ _ h
+  rw [if_neg c5] at h ⊢
+  by_cases c6 : t = 0x888e
+  · rw [if_pos c6] at h ⊢; simp [hx, pure, Except.pure] at h; subst h; rfl
+  rw [if_neg c6] at h ⊢
+  by_cases c7 : t = 0x8847 ∨ t = 0x8848
+  · rw [if_pos c7] at h ⊢; simp [hx, pure, Except.pure] at h; subst h; rfl
+  rw [if_neg c7] at h ⊢
+  by_cases c8 : t < 1536 ∧ allow = true
+  · rw [if_pos c8] at h ⊢; exact hr.llc _ _ h
+  rw [if_neg c8] at h ⊢
+  simp [pure, Except.pure] at h; subst h; rfl
+
+theorem ethParse_ref (cfg : Cfg) (hx : cfg.ext = false) (next : K → Bytes → P Frame) (nextC : Kind → Bytes → Pkt) (hr : Rel next nextC) (raw : Bytes) (f : Frame)
+    (h : ethParse cfg next raw = .ok f) : f.toPkt = Packet.ethParse nextC raw := by
+  unfold ethParse at h
+  unfold Packet.ethParse
+  by_cases c : raw.length < 14
+  · rw [if_pos c] at h ⊢; simp [pure, Except.pure] at h; subst h; rfl
+  rw [if_neg c] at h ⊢
+  obtain ⟨dst, src, t, hu, hu', _⟩ := eth_shape (raw.take 14) (take_len raw 14 (by omega))
+  simp only [hu] at h
+  simp only [hu']
+  cases hn : parseNext cfg next t (raw.drop 14) with
+  | error e => simp [hn] at h
+  | ok n =>
+    simp [hn, pure, Except.pure] at h
+    subst h
+    simp [Frame.toPkt, parseNext_ref cfg hx next nextC hr _ _ _ _ hn]
+
+theorem vlanParse_ref (cfg : Cfg) (hx : cfg.ext = false) (next : K → Bytes → P Frame) (nextC : Kind → Bytes → Pkt) (hr : Rel next nextC) (raw : Bytes) (f : Frame)
+    (h : vlanParse cfg next raw = .ok f) : f.toPkt = Packet.vlanParse nextC raw := by
+  unfold vlanParse at h
+  unfold Packet.vlanParse
+  by_cases c : raw.length < 4
+  · rw [if_pos c] at h ⊢; simp [pure, Except.pure] at h; subst h; rfl
+  rw [if_neg c] at h ⊢
+  obtain ⟨x, y, hu, hu', _⟩ := nums2_shape vlanL 2 2 rfl (raw.take 4) (take_len raw 4 (by omega))
+  simp only [hu] at h
+  simp only [hu']
+  cases hn : parseNext cfg next y (raw.drop 4) with
+  | error e => simp [hn] at h
+  | ok n =>
+    simp [hn, pure, Except.pure] at h
+    subst h
+    simp [Frame.toPkt, parseNext_ref cfg hx next nextC hr _ _ _ _ hn]
+
+theorem arpParse_ref (raw : Bytes) (f : Frame) (h : arpParse raw = .ok f) : f.toPkt = Packet.arpParse raw := by
+  unfold arpParse at h
+  unfold Packet.arpParse
+  by_cases c : raw.length < 28
+  · rw [if_pos c] at h ⊢; simp [pure, Except.pure] at h; subst h; rfl
+  rw [if_neg c] at h ⊢
+  obtain ⟨a1, a2, a3, a4, a5, a6, a7, a8, a9, hu, hu', _⟩ := arp_shape (raw.take 28) (take_len raw 28 (by omega))
+  simp only [hu] at h
+  simp only [hu']
+  repeat' split at h
+  all_goals (simp [pure, Except.pure] at h; subst h; simp_all [Frame.toPkt])
+
+theorem echoParse_ref (raw : Bytes) (f : Frame) (h : echoParse raw = .ok f) : f.toPkt = Packet.echoParse raw := by
+  unfold echoParse at h
+  unfold Packet.echoParse
+  by_cases c : raw.length < 4
+  · rw [if_pos c] at h ⊢; simp [pure, Except.pure] at h; subst h; rfl
+  rw [if_neg c] at h ⊢
+  obtain ⟨x, y, hu, hu', _⟩ := nums2_shape echoL 2 2 rfl (raw.take 4) (take_len raw 4 (by omega))
+  simp only [hu] at h
+  simp only [hu']
+  simp [pure, Except.pure] at h; subst h; rfl
+
+theorem udpParse_ref (cfg : Cfg) (hx : cfg.ext = false) (next : K → Bytes → P Frame) (raw : Bytes) (f : Frame)
+    (h : udpParse cfg next raw = .ok f) : f.toPkt = Packet.udpParse raw := by
+  unfold udpParse at h
+  unfold Packet.udpParse
+  simp only [udpPayload, hx, Bool.false_eq_true, if_false] at h
+  dsimp only at h ⊢
+  by_cases c : raw.length < 8
+  · rw [if_pos c] at h ⊢; simp [pure, Except.pure] at h; subst h; rfl
+  rw [if_neg c] at h ⊢
+  obtain ⟨sp, dp, l, cs, hu, hu', _⟩ := udp_shape (raw.take 8) (take_len raw 8 (by omega))
+  simp only [hu] at h
+  simp only [hu']
+  by_cases c1 : l < 8
+  · rw [if_pos c1] at h ⊢; simp [pure, Except.pure] at h; subst h; rfl
+  rw [if_neg c1] at h ⊢
+  by_cases c2 : dp = 67 ∨ dp = 68
+  · rw [if_pos c2] at h ⊢; simp [pure, Except.pure] at h; subst h; rfl
+  rw [if_neg c2] at h ⊢
+  by_cases c3 : dp = 53 ∨ sp = 53
+  · rw [if_pos c3] at h ⊢; simp [pure, Except.pure] at h; subst h; rfl
+  rw [if_neg c3] at h ⊢
+  by_cases c4 : dp = 5353 ∨ sp = 5353
+  · rw [if_pos c4] at h ⊢; simp [pure, Except.pure] at h; subst h; rfl
+  rw [if_neg c4] at h ⊢
+  by_cases c5 : dp = 520 ∨ sp = 520
+  · rw [if_pos c5] at h ⊢; simp [pure, Except.pure] at h; subst h; rfl
+  rw [if_neg c5] at h ⊢
+  by_cases c6 : dp = 4789 ∨ sp = 4789
+  · rw [if_pos c6] at h ⊢; simp [pure, Except.pure] at h; subst h; rfl
+  rw [if_neg c6] at h ⊢
+  by_cases c7 : raw.length < l
+  · rw [if_pos c7] at h ⊢; simp [pure, Except.pure] at h; subst h; rfl
+  · rw [if_neg c7] at h ⊢; simp [pure, Except.pure] at h; subst h; rfl
+
+theorem quoteDispatch_ref (next : K → Bytes → P Frame) (nextC : Kind → Bytes → Pkt) (hr : Rel next nextC) (raw : Bytes) (g : Frame)
+    (h : quoteDispatch next raw = .ok g) : g.toPkt = Packet.quoteDispatch nextC raw := by
+  unfold quoteDispatch at h
+  unfold Packet.quoteDispatch
+  by_cases c : raw.length ≥ 28
+  · rw [if_pos c] at h ⊢; exact hr.same _ _ _ _ rfl h
+  · rw [if_neg c] at h ⊢; simp [pure, Except.pure] at h; subst h; rfl
+
+theorem unreachParse_ref (next : K → Bytes → P Frame) (nextC : Kind → Bytes → Pkt) (hr : Rel next nextC) (raw : Bytes) (f : Frame)
+    (h : unreachParse next raw = .ok f) : f.toPkt = Packet.unreachParse nextC raw := by
+  unfold unreachParse at h
+  unfold Packet.unreachParse
+  by_cases c : raw.length < 4
+  · rw [if_pos c] at h ⊢; simp [pure, Except.pure] at h; subst h; rfl
+  rw [if_neg c] at h ⊢
+  obtain ⟨x, y, hu, hu', _⟩ := nums2_shape unreachL 2 2 rfl (raw.take 4) (take_len raw 4 (by omega))
+  simp only [hu] at h
+  simp only [hu']
+  cases hn : quoteDispatch next raw with
+  | error e => simp [hn] at h
+  | ok n =>
+    simp [hn, pure, Except.pure] at h
+    subst h
+    simp [Frame.toPkt, quoteDispatch_ref next nextC hr _ _ hn]
+
+theorem timeExParse_ref (next : K → Bytes → P Frame) (nextC : Kind → Bytes → Pkt) (hr : Rel next nextC) (raw : Bytes) (f : Frame)
+    (h : timeExParse next raw = .ok f) : f.toPkt = Packet.timeExParse nextC raw := by
+  unfold timeExParse at h
+  unfold Packet.timeExParse
+  by_cases c : raw.length < 4
+  · rw [if_pos c] at h ⊢; simp [pure, Except.pure] at h; subst h; rfl
+  rw [if_neg c] at h ⊢
+  obtain ⟨x, hu, hu', _⟩ := num1_shape 4 (raw.take 4) (take_len raw 4 (by omega))
+  have hu1 : unpackE timeExL (raw.take 4) = .ok [.num x] := hu
+  have hu2 : unpack timeExL (raw.take 4) = some [.num x] := hu'
+  simp only [hu1] at h
+  simp only [hu2]
+  cases hn : quoteDispatch next raw with
+  | error e => simp [hn] at h
+  | ok n =>
+    simp [hn, pure, Except.pure] at h
+    subst h
+    simp [Frame.toPkt, quoteDispatch_ref next nextC hr _ _ hn]
+
+theorem icmpParse_ref (next : K → Bytes → P Frame) (nextC : Kind → Bytes → Pkt) (hr : Rel next nextC) (raw : Bytes) (f : Frame)
+    (h : icmpParse next raw = .ok f) : f.toPkt = Packet.icmpParse nextC raw := by
+  unfold icmpParse at h
+  unfold Packet.icmpParse Packet.icmpDispatch
+  by_cases c : raw.length < 4
+  · rw [if_pos c] at h ⊢; simp [pure, Except.pure] at h; subst h; rfl
+  rw [if_neg c] at h ⊢
+  obtain ⟨t, cd, s, hu, hu', _⟩ := icmp_shape (raw.take 4) (take_len raw 4 (by omega))
+  simp only [hu] at h
+  simp only [hu']
+  by_cases c1 : t = 8 ∨ t = 0
+  · rw [if_pos c1] at h ⊢
+    cases hn : next .echo (raw.drop 4) with
+    | error e => simp [hn] at h
+    | ok n => simp [hn, pure, Except.pure] at h; subst h; simp [Frame.toPkt, hr.same _ _ _ _ rfl hn]
+  rw [if_neg c1] at h ⊢
+  by_cases c2 : t = 3
+  · rw [if_pos c2] at h ⊢
+    cases hn : next .unreach (raw.drop 4) with
+    | error e => simp [hn] at h
+    | ok n => simp [hn, pure, Except.pure] at h; subst h; simp [Frame.toPkt, hr.same _ _ _ _ rfl hn]
+  rw [if_neg c2] at h ⊢
+  by_cases c3 : t = 11
+  · rw [if_pos c3] at h ⊢
+    cases hn : next .timeEx (raw.drop 4) with
+    | error e => simp [hn] at h
+    | ok n => simp [hn, pure, Except.pure] at h; subst h; simp [Frame.toPkt, hr.same _ _ _ _ rfl hn]
+  rw [if_neg c3] at h ⊢
+  simp [pure, Except.pure] at h; subst h; rfl
+
+theorem isUnparsed_toPkt (g : Frame) : Packet.isUnparsed g.toPkt = isUnparsed g := by
+  cases g with
+  | udp h r n => cases n <;> rfl
+  | _ => rfl
+
+theorem ipv4Dispatch_ref (cfg : Cfg) (hx : cfg.ext = false) (next : K → Bytes → P Frame) (nextC : Kind → Bytes → Pkt) (hr : Rel next nextC) (frag proto : Nat)
+    (body : Bytes) (short : Bool) (g : Frame) (h : ipv4Dispatch cfg next frag proto body short = .ok g) :
+    g.toPkt = Packet.ipv4Dispatch nextC frag proto body short := by
+  unfold ipv4Dispatch at h
+  simp only [hx, Bool.false_eq_true, false_and, or_false] at h
+  unfold Packet.ipv4Dispatch
+  by_cases c0 : frag ≠ 0
+  · rw [if_pos c0] at h; simp [pure, Except.pure] at h; subst h; simp [c0, Frame.toPkt, Packet.isUnparsed]
+  rw [if_neg c0] at h
+  simp only [c0, if_false]
+  have fin : ∀ (k : K) (kc : Kind) (nx : Frame), k.toKind = some kc → next k body = .ok nx →
+      (if isUnparsed nx = true then Frame.raw body else nx).toPkt
+        = if Packet.isUnparsed (nextC kc body) = true then Pkt.raw body else nextC kc body := by
+    intro k kc nx hk hn
+    have e := hr.same _ _ _ _ hk hn
+    rw [← e, isUnparsed_toPkt]
+    by_cases hu : isUnparsed nx = true <;> simp [hu, Frame.toPkt]
+  by_cases c17 : proto = 17
+  · subst c17
+    cases hn : next .udp body with
+    | error e => simp [hn] at h
+    | ok nx => simp [hn, pure, Except.pure] at h; subst h; simpa using fin .udp .udp nx rfl hn
+  by_cases c6 : proto = 6
+  · subst c6
+    cases hn : next .tcp body with
+    | error e => simp [hn] at h
+    | ok nx => simp [hn, pure, Except.pure] at h; subst h; simpa using fin .tcp .tcp nx rfl hn
+  by_cases c1 : proto = 1
+  · subst c1
+    cases hn : next .icmp body with
+    | error e => simp [hn] at h
+    | ok nx => simp [hn, pure, Except.pure] at h; subst h; simpa using fin .icmp .icmp nx rfl hn
+  have hno : ¬ (proto = 17 ∨ proto = 6 ∨ proto = 1) := by omega
+  rw [if_neg hno] at h
+  simp only [c17, c6, c1, if_false]
+  by_cases c2 : proto = 2
+  · rw [if_pos c2] at h ⊢; simp [pure, Except.pure] at h; subst h; simp [Frame.toPkt, Packet.isUnparsed]
+  rw [if_neg c2] at h ⊢
+  by_cases c47 : proto = 47
+  · rw [if_pos c47] at h ⊢; simp [pure, Except.pure] at h; subst h; simp [Frame.toPkt, Packet.isUnparsed]
+  rw [if_neg c47] at h ⊢
+  by_cases cs : short = true
+  · rw [if_pos cs] at h ⊢; simp [pure, Except.pure] at h; subst h; simp [Frame.toPkt, Packet.isUnparsed]
+  · rw [if_neg cs] at h ⊢; simp [pure, Except.pure] at h; subst h; simp [Frame.toPkt, Packet.isUnparsed]
+
+theorem ipv4Parse_ref (cfg : Cfg) (hx : cfg.ext = false) (next : K → Bytes → P Frame) (nextC : Kind → Bytes → Pkt) (hr : Rel next nextC) (raw : Bytes) (f : Frame)
+    (h : ipv4Parse cfg next raw = .ok f) : f.toPkt = Packet.ipv4Parse nextC raw := by
+  unfold ipv4Parse at h
+  unfold Packet.ipv4Parse
+  dsimp only at h ⊢
+  by_cases c : raw.length < 20
+  · rw [if_pos c] at h ⊢; simp [pure, Except.pure] at h; subst h; rfl
+  rw [if_neg c] at h ⊢
+  obtain ⟨vhl, tos, iplen, id, ff, ttl, proto, csum, src, dst, hu, hu', _⟩ :=
+    ipv4_shape (raw.take 20) (take_len raw 20 (by omega))
+  simp only [hu] at h
+  simp only [hu']
+  by_cases c1 : vhl / 16 ≠ 4
+  · rw [if_pos c1] at h ⊢; simp [pure, Except.pure] at h; subst h; rfl
+  rw [if_neg c1] at h ⊢
+  by_cases c2 : vhl % 16 < 5
+  · rw [if_pos c2] at h ⊢; simp [pure, Except.pure] at h; subst h; rfl
+  rw [if_neg c2] at h ⊢
+  by_cases c3 : iplen < 20
+  · rw [if_pos c3] at h ⊢; simp [pure, Except.pure] at h; subst h; rfl
+  rw [if_neg c3] at h ⊢
+  by_cases c4 : vhl % 16 * 4 > iplen
+  · rw [if_pos c4] at h ⊢; simp [pure, Except.pure] at h; subst h; rfl
+  rw [if_neg c4] at h ⊢
+  by_cases c5 : vhl % 16 * 4 > raw.length
+  · rw [if_pos c5] at h ⊢; simp [pure, Except.pure] at h; subst h; rfl
+  rw [if_neg c5] at h ⊢
+  cases hn : ipv4Dispatch cfg next (ff % 8192) proto (sl raw (vhl % 16 * 4) (if iplen > raw.length then raw.length else iplen))
+      (decide (raw.length < iplen)) with
+  | error e => simp [hn] at h
+  | ok n =>
+    simp [hn, pure, Except.pure] at h
+    subst h
+    simp [Frame.toPkt, ipv4Dispatch_ref cfg hx next nextC hr _ _ _ _ _ hn]
+
+theorem tcpParseOptsB_hdr (arr : Bytes) (hdrLen : Nat) : ∀ (fuel i : Nat),
+    tcpParseOptsB fuel arr hdrLen hdrLen i = tcpParseOpts fuel arr hdrLen i := by
+  intro fuel
+  induction fuel with
+  | zero => intro i; rfl
+  | succ fuel ih =>
+    intro i
+    have ih' : (fun j => tcpParseOptsB fuel arr hdrLen hdrLen j) = fun j => tcpParseOpts fuel arr hdrLen j := funext ih
+    simp only [tcpParseOptsB, tcpParseOpts]
+    by_cases c : i < hdrLen
+    · simp only [if_pos c]
+      cases getU8 arr i with
+      | none => rfl
+      | some t =>
+        dsimp only
+        by_cases t0 : t = 0
+        · simp only [if_pos t0]
+        simp only [if_neg t0]
+        by_cases t1 : t = 1
+        · simp only [if_pos t1, ih]
+        simp only [if_neg t1]
+        by_cases c2 : i + 2 > arr.length
+        · simp only [if_pos c2]
+        simp only [if_neg c2]
+        cases getU8 arr (i + 1) with
+        | none => rfl
+        | some length =>
+          dsimp only
+          by_cases c3 : i + length > hdrLen
+          · simp only [if_pos c3]
+          simp only [if_neg c3]
+          by_cases c4 : length < 2
+          · simp only [if_pos c4]
+          simp only [if_neg c4]
+          by_cases c5 : t = 30
+          · simp only [if_pos c5]
+          simp only [if_neg c5]
+          cases tcpOptUnpack arr i t length with
+          | none => rfl
+          | some p => obtain ⟨i', o⟩ := p; simp only [ih]
+    · simp only [if_neg c]
+
+theorem tcpParse_ref (cfg : Cfg) (hc : cfg.tcpOptBound = true) (raw : Bytes) (f : Frame) (h : tcpParse cfg raw = .ok f) :
+    f.toPkt = Packet.tcpParse raw := by
+  unfold tcpParse at h
+  unfold Packet.tcpParse
+  dsimp only at h ⊢
+  by_cases c : raw.length < 20
+  · rw [if_pos c] at h ⊢; simp [pure, Except.pure] at h; subst h; rfl
+  rw [if_neg c] at h ⊢
+  obtain ⟨sp, dp, seq, ack, offres, flags, win, csum, urg, hu, hu', _⟩ := tcp_shape (raw.take 20) (take_len raw 20 (by omega))
+  simp only [hu] at h
+  simp only [hu']
+  by_cases c1 : offres / 16 * 4 < 20 ∨ offres / 16 * 4 > raw.length
+  · rw [if_pos c1] at h ⊢; simp [pure, Except.pure] at h; subst h; rfl
+  rw [if_neg c1] at h ⊢
+  simp only [hc, if_true, tcpParseOptsB_hdr] at h
+  cases hr : tcpParseOpts (offres / 16 * 4) raw (offres / 16 * 4) 20 with
+  | fail => simp [hr, pure, Except.pure] at h; subst h; rfl
+  | mptcp => simp [hr, pure, Except.pure] at h; subst h; rfl
+  | ok os => simp [hr, pure, Except.pure] at h; subst h; rfl
+
+theorem llcTail_shape (cfg : Cfg) (next : K → Bytes → P Frame) (raw : Bytes) (d s c len : Nat) (g : Frame)
+    (h : llcTail cfg next raw d s c len = .ok g) : g.toPkt = .unmodelled "llc" raw := by
+  unfold llcTail at h
+  dsimp only at h
+  repeat' split at h
+  all_goals first
+    | (simp [pure, Except.pure] at h; subst h; rfl)
+    | simp at h
+
+theorem llcParse_shape (cfg : Cfg) (next : K → Bytes → P Frame) (raw : Bytes) (g : Frame) (h : llcParse cfg next raw = .ok g) :
+    g.toPkt = .unmodelled "llc" raw := by
+  unfold llcParse at h
+  repeat' split at h
+  all_goals first
+    | (simp [pure, Except.pure] at h; subst h; rfl)
+    | exact llcTail_shape _ _ _ _ _ _ _ _ h
+    | simp at h
+
+theorem lldpParse_shape (cfg : Cfg) (raw : Bytes) (g : Frame) (h : lldpParse cfg raw = .ok g) :
+    g.toPkt = .unmodelled "lldp" raw := by
+  unfold lldpParse at h
+  repeat' split at h
+  all_goals first
+    | (simp [pure, Except.pure] at h; subst h; rfl)
+    | simp at h
+
+/-- the exception-aware parser refines the total parser of C14 -/
+theorem parseD_ref (cfg : Cfg) (hc : cfg.tcpOptBound = true) (hx : cfg.ext = false) : ∀ (d : Nat),
+    Rel (parseD cfg d) (Packet.parse d) := by
+  intro d
+  induction d with
+  | zero =>
+    exact ⟨fun k kc b g _ h => by simp [parseD] at h, fun b g h => by simp [parseD] at h, fun b g h => by simp [parseD] at h⟩
+  | succ d ih =>
+    refine ⟨?_, ?_, ?_⟩
+    · intro k kc b g hk h
+      cases k <;> simp [K.toKind] at hk <;> subst hk <;> simp only [parseD] at h <;> simp only [Packet.parse]
+      · exact ethParse_ref cfg hx _ _ ih _ _ h
+      · exact vlanParse_ref cfg hx _ _ ih _ _ h
+      · exact arpParse_ref _ _ h
+      · exact ipv4Parse_ref cfg hx _ _ ih _ _ h
+      · exact udpParse_ref cfg hx _ _ _ h
+      · exact tcpParse_ref cfg hc _ _ h
+      · exact icmpParse_ref _ _ ih _ _ h
+      · exact echoParse_ref _ _ h
+      · exact unreachParse_ref _ _ ih _ _ h
+      · exact timeExParse_ref _ _ ih _ _ h
+    · intro b g h; simp only [parseD] at h; exact llcParse_shape _ _ _ _ h
+    · intro b g h; simp only [parseD] at h; exact lldpParse_shape _ _ _ h
+
+/-! ## nesting is bounded only by the frame length -/
+
+/-- `n` 802.1Q tags, each announcing another tag (TCI 0x0001, inner type 0x8100) -/
+def vtags : Nat → Bytes
+  | 0 => []
+  | n+1 => [0x00, 0x01, 0x81, 0x00] ++ vtags n
+
+/-- an Ethernet header of type 0x8100 followed by `n` such tags: 14 + 4·n bytes -/
+def nestFrame (n : Nat) : Bytes := List.replicate 12 0 ++ [0x81, 0x00] ++ vtags n
+
+theorem vtags_length (n : Nat) : (vtags n).length = 4 * n := by
+  induction n with
+  | zero => rfl
+  | succ n ih => simp [vtags, ih]; omega
+
+theorem nestFrame_length (n : Nat) : (nestFrame n).length = 14 + 4 * n := by
+  simp [nestFrame, vtags_length]; omega
+
+theorem vlan_nest (cfg : Cfg) : ∀ (m n : Nat), m ≤ n → parseD cfg m .vlan (vtags n) = .error .recursion := by
+  intro m
+  induction m with
+  | zero => intro n _; rfl
+  | succ m ih =>
+    intro n hn
+    cases n with
+    | zero => omega
+    | succ n =>
+      have hlen : ¬ (vtags (n + 1)).length < 4 := by rw [vtags_length]; omega
+      have hu : unpackE vlanL ((vtags (n + 1)).take 4) = .ok [.num 1, .num 0x8100] := by
+        simp only [vtags, List.cons_append, List.nil_append, List.take_succ_cons, List.take_zero]; rfl
+      have hd : (vtags (n + 1)).drop 4 = vtags n := by simp [vtags]
+      simp only [parseD, vlanParse, if_neg hlen, hu, hd, parseNext, if_true, ih n (by omega)]
+
+theorem eth_nest (cfg : Cfg) (d : Nat) : parseD cfg d .eth (nestFrame d) = .error .recursion := by
+  cases d with
+  | zero => rfl
+  | succ m =>
+    have hlen : ¬ (nestFrame (m + 1)).length < 14 := by rw [nestFrame_length]; omega
+    have hu : unpackE ethL ((nestFrame (m + 1)).take 14) = .ok [.raw (List.replicate 6 0), .raw (List.replicate 6 0), .num 0x8100] := by
+      simp only [nestFrame, List.replicate, List.cons_append, List.nil_append, List.take_succ_cons, List.take_zero]; rfl
+    have hd : (nestFrame (m + 1)).drop 14 = vtags (m + 1) := by simp [nestFrame, List.replicate]
+    simp only [parseD, ethParse, if_neg hlen, hu, hd, parseNext, if_true, vlan_nest cfg m (m + 1) (by omega)]
 end Pox.Parse
